@@ -56,7 +56,11 @@ type Plan struct {
 	DMs        int    `json:"d_ms"`
 	Concurrent bool   `json:"concurrent"`
 	Strategy   int    `json:"strategy"`
-	Ops        []Op   `json:"ops"`
+	// Alias: the application keeps ONE endpoint slice, edits it in place and passes
+	// it again; Scribble n > 0: it overwrites that slice after every n-th call
+	Alias    bool `json:"alias,omitempty"`
+	Scribble int  `json:"scribble,omitempty"`
+	Ops      []Op `json:"ops"`
 }
 
 //go:norace
@@ -105,6 +109,10 @@ func Generate(r *rand.Rand, profile string, concurrent bool) *Plan {
 	}
 	if concurrent {
 		p.Strategy = r.IntN(4)
+	}
+	if !concurrent && r.IntN(3) == 0 {
+		p.Alias = true
+		p.Scribble = r.IntN(3) // 0 never
 	}
 	n := 6 + r.IntN(40)
 	if r.IntN(4) == 0 {
@@ -355,20 +363,22 @@ type histOp struct {
 }
 
 type sim struct {
-	lin    []*histOp
-	plan   *Plan
-	k      *kern.Kernel
-	me     multiendpoint.MultiEndpoint
-	mo     *model
-	res    *simkit.Result
-	held   []*kern.Task
-	opIdx  int
-	prev   string // last observed Current()
-	stop   bool
-	hist   []string
-	hintOp int
-	hintN  uint64
-	pub    int32
+	buf       []string // the application's own endpoint slice (plan.Alias)
+	scribbles int
+	lin       []*histOp
+	plan      *Plan
+	k         *kern.Kernel
+	me        multiendpoint.MultiEndpoint
+	mo        *model
+	res       *simkit.Result
+	held      []*kern.Task
+	opIdx     int
+	prev      string // last observed Current()
+	stop      bool
+	hist      []string
+	hintOp    int
+	hintN     uint64
+	pub       int32
 }
 
 //go:norace
@@ -414,6 +424,42 @@ func (s *sim) call(name string, fn func()) {
 		s.k.Quiesce()
 	}
 	s.kernelFailure()
+}
+
+// callerList returns the slice the application passes to the library. With
+// plan.Alias the application owns one buffer which it edits in place and passes
+// again whenever the length fits - legal use: the library may not keep the
+// caller's slice, neither to read it later nor to compare a new list with.
+//
+//go:norace
+func (s *sim) callerList(list []string) []string {
+	if !s.plan.Alias {
+		return append([]string{}, list...)
+	}
+	if len(s.buf) == len(list) && len(list) > 0 {
+		copy(s.buf, list)
+		s.res.Count("fault:caller_reuses_its_slice_in_place", 1)
+	} else {
+		s.buf = append([]string{}, list...)
+	}
+	return s.buf
+}
+
+// scribble: after the call returned the application overwrites its buffer.
+//
+//go:norace
+func (s *sim) scribble() {
+	if !s.plan.Alias || s.plan.Scribble == 0 {
+		return
+	}
+	s.scribbles++
+	if s.scribbles%s.plan.Scribble != 0 {
+		return
+	}
+	for i := range s.buf {
+		s.buf[i] = fmt.Sprintf("scribbled-%d", i)
+	}
+	s.res.Count("fault:caller_overwrites_its_slice_after_the_call", 1)
 }
 
 //go:norace
@@ -615,8 +661,9 @@ func (s *sim) run(src *simkit.Source, logOn bool) {
 	var err error
 	s.call("New", func() {
 		s.me, err = multiendpoint.NewMultiEndpoint(&multiendpoint.MultiEndpointOptions{
-			Endpoints: append([]string{}, list...), RecoveryTimeout: mo.r, SwitchingDelay: mo.d})
+			Endpoints: s.callerList(list), RecoveryTimeout: mo.r, SwitchingDelay: mo.d})
 	})
+	s.scribble()
 	if s.stop {
 		s.finish()
 		return
@@ -682,7 +729,9 @@ func (s *sim) exec(o Op) {
 	case OpSetList:
 		list := names(o.List)
 		var err error
-		s.call("SetEndpoints", func() { err = s.me.SetEndpoints(append([]string{}, list...)) })
+		arg := s.callerList(list)
+		s.call("SetEndpoints", func() { err = s.me.SetEndpoints(arg) })
+		s.scribble()
 		if s.stop {
 			return
 		}
